@@ -1,6 +1,7 @@
 import LnModel.Sexp
 import LnModel.Treeshake
 import LnModel.Domain
+import LnModel.Domain2
 import LnModel.Documented
 import LnModel.RustTy
 /-! Reading an OpenAPI document (as dumped by the harness from the *parsed* `openapiv3::OpenAPI`)
@@ -245,6 +246,7 @@ def step (req : Sexp) : Option Sexp :=
   | .list [.atom "is_ref_type", t] => (tyOfS t).map fun t => b (isReferenceType t)
   | .list [.atom "extract", s] => (specOf s).map fun spec => xTo hirTo (extractSpec spec)
   | .list [.atom "in_d", s] => (specOf s).map fun spec => b (inD spec)
+  | .list [.atom "in_d2", s] => (specOf s).map fun spec => b (inD2 spec)
   | .list [.atom "extract_raw", s] => (specOf s).map fun spec => xTo hirTo (extractWithoutTreeshake spec)
   | _ => none
 
